@@ -864,6 +864,8 @@ func (vc *FnVC) globalTerm(o *types.Var) Term {
 				}
 			}
 			vc.globalErrs = append(vc.globalErrs, name)
+			vc.globalGoNames[name] = goName{o.Pkg(), o.Name()}
+			vc.inputs = append(vc.inputs, ModelVar{"global:" + name, name, "Int"})
 			vc.assume("package-level sentinel error variables are non-nil, pairwise distinct and never reassigned")
 		} else {
 			t := Term{S: name, Sort: srt, T: o.Type()}
